@@ -19,6 +19,13 @@ I  INVOCATION-level histories inside ONE page (ContextInvoke.tla): a page is no 
    template) and compares every invocation.  The expected values come from TLC, not from a second run
    of the real code (a fresh context shows the same wrong page).  V: random histories of 5-12
    invocations with page breaks are recorded and replayed by Trace_ContextInvoke.
+N  NESTED PROGRAMS inside ONE top-level invocation (round 7, ContextInvoke!ProgInv): a driver module runs a
+   sequence of steps - nested invocations reached through frame:preprocess / an argument expanded when it is
+   read / frame:expandTemplate that write or read a global, string.* / table.* fields, module-level and
+   require()d state; own reads and writes of the caller; nested drivers running a sub-program.  G: TLC
+   enumerates the nest cases (NCASE) with the demanded outcome of every step; V: random programs are
+   recorded and replayed by Trace_ContextInvoke.  What a nested invocation writes must be visible neither
+   to the rest of its caller nor to a later sibling.
 """
 from __future__ import annotations
 
@@ -212,7 +219,53 @@ INV_MODULES = {
          'function p.nest(frame) MARK = "set" return "n[" .. frame:preprocess("{{#invoke:" .. frame.args[1] .. "|" .. frame.args[2] .. "}}") .. "]" end\n'
          'function p.tnest(frame) MARK = "set" return "n[" .. frame:expandTemplate{title = "Inv", args = {frame.args[1], frame.args[2]}} .. "]" end\n'
          'return p\n',
+    "Tab": 'local p = {}\nfunction p.tset(frame) local b = tostring(table.leaked) table.leaked = "set" return "t=" .. b end\n'
+           'function p.tget(frame) return "t=" .. tostring(table.leaked) end\nreturn p\n',
+    "V": 'local p = {}\nfunction p.view(frame) return "v=" .. tostring(MARK) .. "," .. tostring(string.leaked) .. "," .. tostring(table.leaked) end\n'
+         'return p\n',
 }
+# the driver of the nested programs: every argument is one step, taken in order.  "P:Mod:fn[:a;b;..]" /
+# "T:Mod:fn[:a;b;..]" make a nested #invoke through frame:preprocess / frame:expandTemplate (in the extra
+# arguments "~" stands for ":"), "O" reports the three cells as this invocation sees them, "Wg"/"Ws"/"Wt" set
+# one of them, any other text is the expansion of an argument that was itself an #invoke (arguments are
+# expanded when frame.args[i] is read, i.e. from inside this running call)
+NEST_DRIVER = r"""
+local p = {}
+function p.run(frame)
+  local out = {}
+  local i = 1
+  while true do
+    local a = frame.args[i]
+    if a == nil then break end
+    if a ~= "" then
+      local via, mod, fn, rest = a:match("^([PT]):(%w+):(%w+):?(.*)$")
+      if via then
+        local extra = {}
+        for x in rest:gmatch("[^;]+") do extra[#extra + 1] = (x:gsub("~", ":")) end
+        if via == "P" then
+          local text = "{{#invoke:" .. mod .. "|" .. fn
+          for _, x in ipairs(extra) do text = text .. "|" .. x end
+          out[#out + 1] = frame:preprocess(text .. "}}")
+        else
+          local targs = {mod, fn}
+          for _, x in ipairs(extra) do targs[#targs + 1] = x end
+          out[#out + 1] = frame:expandTemplate{title = "@T@", args = targs}
+        end
+      elseif a == "O" then out[#out + 1] = "o=" .. tostring(MARK) .. "," .. tostring(string.leaked) .. "," .. tostring(table.leaked)
+      elseif a == "Wg" then MARK = "@W@" out[#out + 1] = "w"
+      elseif a == "Ws" then string.leaked = "@W@" out[#out + 1] = "w"
+      elseif a == "Wt" then table.leaked = "@W@" out[#out + 1] = "w"
+      else out[#out + 1] = a end
+    end
+    i = i + 1
+  end
+  return "[" .. table.concat(out, "/") .. "]"
+end
+return p
+"""
+INV_MODULES["Nest"] = NEST_DRIVER.replace("@W@", "own").replace("@T@", "InvA")
+INV_MODULES["Nest2"] = NEST_DRIVER.replace("@W@", "sub").replace("@T@", "InvB")     # (InvA inside InvA would be a template loop)
+NEST_MAXARGS = 4            # Template:InvA hands on four arguments
 # kind of ContextInvoke.tla -> (module, function) of the concrete #invoke
 INV_SIMPLE = {
     "bump": ("Ctr", "bump"), "bump2": ("Ctr", "bump2"), "peek": ("Ctr", "peek"), "reqbump": ("Req", "reqbump"),
@@ -223,6 +276,9 @@ INV_SIMPLE = {
 }
 INV_PREFIX = {"bump": "c=", "bump2": "c=", "peek": "c=", "reqbump": "r=", "gset": "g=", "gget": "g=", "rget": "x=", "sset": "s=", "sget": "s=",
               "ldset": "d=", "ldget": "d=", "ljset": "d=", "ljget": "d="}
+# kinds that occur only as nested steps of a program
+NEST_ONLY = {"tset": ("Tab", "tset"), "tget": ("Tab", "tget"), "view": ("V", "view")}
+NEST_PREFIX = dict(INV_PREFIX, tset="t=", tget="t=", view="v=")
 INV_TIMEOUT = 0.05   # seconds; the sandbox clock has 1 s granules, so the loop is stopped within about a second
 INV_RENDERINGS = ("calls", "text", "tmpl")
 INV_SEP = " ; "
@@ -233,7 +289,135 @@ def inv_inner(kind):
     return ("nest" if via == "n" else "tnest"), inner
 
 
+def nest_modfn(k):
+    return ("Nest2", "run") if k == "prog" else INV_SIMPLE.get(k) or NEST_ONLY[k]
+
+
+def nest_arg(st, top=True):
+    """Argument of the driver that stands for one step.  top=False: inside the extra arguments of a "P:" / "T:" step."""
+    if st["via"] == "own":
+        return st["k"]
+    mod, fn = ("Nest2", "run") if st["k"] == "prog" else nest_modfn(st["k"])
+    if st["via"] == "A":        # the argument itself is an #invoke
+        assert top, "an argument that is an #invoke cannot be written inside a P:/T: step"
+        return "{{#invoke:%s|%s%s}}" % (mod, fn, "".join("|" + nest_arg(x) for x in st["sub"]))
+    a = "%s:%s:%s" % (st["via"], mod, fn)
+    if st["sub"]:
+        assert len(st["sub"]) <= NEST_MAXARGS
+        a += ":" + ";".join(nest_arg(x, False).replace(":", "~") for x in st["sub"])
+    assert top or "~" not in a
+    return a
+
+
+def nest_text(prog):
+    return "{{#invoke:Nest|run%s}}" % "".join("|" + nest_arg(st) for st in prog)
+
+
+def nest_render(outs):
+    """Concrete text the model outcome of a program stands for."""
+    parts = []
+    for x in outs:
+        if x["k"] == "prog":
+            parts.append(nest_render(x["sub"]))
+        elif x["via"] == "own":
+            parts.append("o=" + ",".join(x["vals"]) if x["k"] == "O" else "w")
+        else:
+            parts.append(NEST_PREFIX[x["k"]] + ",".join(x["vals"]))
+    return "[" + "/".join(parts) + "]"
+
+
+def nest_abstract(prog, text):
+    """Observed text of a program -> step records in the shape of ContextInvoke!StepOut (anything unexpected -> k 'other')."""
+    pos = 0
+
+    def other(t):
+        return [{"via": "own", "k": "other", "vals": [t[:80]], "sub": []}]
+
+    def items():        # "[" item ("/" item)* "]" with item = "[...]" | token
+        nonlocal pos
+        if pos >= len(text) or text[pos] != "[":
+            raise ValueError
+        pos += 1
+        res = []
+        if text[pos:pos + 1] == "]":
+            pos += 1
+            return res
+        while True:
+            if text[pos:pos + 1] == "[":
+                res.append(items())
+            else:
+                m = re.compile(r"[^\[\]/]*").match(text, pos)
+                res.append(m.group(0))
+                pos = m.end()
+            if text[pos:pos + 1] == "/":
+                pos += 1
+            elif text[pos:pos + 1] == "]":
+                pos += 1
+                return res
+            else:
+                raise ValueError
+
+    def fit(steps, got):
+        if len(steps) != len(got):
+            raise ValueError
+        res = []
+        for st, g in zip(steps, got):
+            if st["k"] == "prog":
+                if not isinstance(g, list):
+                    raise ValueError
+                res.append({"via": st["via"], "k": "prog", "vals": [], "sub": fit(st["sub"], g)})
+                continue
+            if isinstance(g, list):
+                raise ValueError
+            if st["via"] == "own" and st["k"] != "O":
+                res.append({"via": "own", "k": st["k"], "vals": [] if g == "w" else [g[:80]], "sub": []})
+                continue
+            pre = "o=" if st["via"] == "own" else NEST_PREFIX[st["k"]]
+            n = 3 if st["k"] in ("O", "view") else 1
+            vals = g[len(pre):].split(",") if g.startswith(pre) else []
+            if len(vals) != n or not all(re.fullmatch(r"\w+", v) for v in vals):
+                vals = ["other:" + g[:80]]
+            res.append({"via": st["via"], "k": st["k"], "vals": vals, "sub": []})
+        return res
+
+    try:
+        tree = items()
+        if pos != len(text):
+            raise ValueError
+        return fit(prog, tree)
+    except (ValueError, IndexError):
+        return other(text)
+
+
+def nest_walk(exp, got, path=()):
+    """Pairs (path, expected leaf step, observed leaf step) in order; a structural mismatch ends the walk with got = None."""
+    if len(exp) != len(got):
+        yield path, exp[0] if exp else None, None
+        return
+    for i, (e, g) in enumerate(zip(exp, got)):
+        if e["k"] != g["k"] or e["via"] != g["via"]:
+            yield path + (i + 1,), e, None
+            return
+        if e["k"] == "prog":
+            yield from nest_walk(e["sub"], g["sub"], path + (i + 1,))
+        else:
+            yield path + (i + 1,), e, g
+
+
+def nest_leaks(e, g):
+    """The observed step shows a value that only ANOTHER invocation can have written: "set" (nested writers) or
+    "sub" (own write of a nested driver) where the model has another value, or a counter above the model's."""
+    if g is None or len(e["vals"]) != len(g["vals"]):
+        return False
+    for a, b in zip(e["vals"], g["vals"]):
+        if a != b and (b in ("set", "sub") or (a.isdigit() and b.isdigit() and int(b) > int(a))):
+            return True
+    return False
+
+
 def inv_text(kind, rendering):
+    if isinstance(kind, dict):      # a nested program (the one top-level invocation of the driver)
+        return nest_text(kind["prog"])
     if kind in INV_SIMPLE:
         mod, fn = INV_SIMPLE[kind]
         args = ""
@@ -301,6 +485,8 @@ def inv_populate(path):
     ctx.add_page("Module:LJ.json", 828, body='{"x": "init", "list": ["a", "b"]}', model="json")
     ctx.add_page("Template:Inv", 10, body="{{#invoke:{{{1}}}|{{{2}}}}}")
     ctx.add_page("Template:Call", 10, body="{{#invoke:{{{1}}}|{{{2}}}|{{{3|}}}|{{{4|}}}}}")
+    for name in ("InvA", "InvB"):
+        ctx.add_page("Template:" + name, 10, body="{{#invoke:{{{1}}}|{{{2}}}|{{{3|}}}|{{{4|}}}|{{{5|}}}|{{{6|}}}}}")
     ctx.db_conn.commit()
     ctx.db_conn.close()
 
@@ -356,12 +542,56 @@ def inv_worker(chunk):
     return res
 
 
-def inv_trace_run(histories):
+def inv_trace_run(histories, progs=()):
+    """progs = [{"case": {pre, prog, post}, "got": {pre, prog, post}}]: recorded nest cases (judged as NCASE)."""
     with Scratch("c09it-") as dd:
         tf = dd / "h.json"
-        tf.write_text(json.dumps(histories))
+        tf.write_text(json.dumps({"hists": histories, "progs": list(progs)}))
         return tlc("Trace_ContextInvoke", "t.cfg", cfg_text="SPECIFICATION TSpec\nINVARIANT Emit\nCHECK_DEADLOCK FALSE\n",
                    workers=1, env={"TRACE_FILE": str(tf)}, timeout=1800)
+
+
+NEST_DEV = "NestedInvokeSharesLoadedModules"
+NEST_WHY_SHARED = ("; the model with the deviation NestedSharesCallerEnv (a nested #invoke runs in the environment of its caller "
+                   "itself instead of in a clone of it) predicts exactly the observed outputs")
+VIA_WORDS = {"P": "frame:preprocess", "A": "an argument expanded when the function reads it", "T": "frame:expandTemplate",
+             "own": "the running invocation itself"}
+
+
+def nest_hist(case):
+    return list(case["pre"]) + [{"prog": case["prog"]}] + list(case["post"])
+
+
+def nest_expected(out):
+    return [inv_render(x) for x in out["pre"]] + [nest_render(out["prog"])] + [inv_render(x) for x in out["post"]]
+
+
+def nest_abstract_case(case, got):
+    """Observed texts of a nest case -> record shape of ContextInvoke!CaseOutcomes."""
+    n = len(case["pre"])
+    return {"pre": [inv_abstract(k, t) for k, t in zip(case["pre"], got[:n])],
+            "prog": nest_abstract(case["prog"], got[n]),
+            "post": [inv_abstract(k, t) for k, t in zip(case["post"], got[n + 1:])]}
+
+
+def nest_rand_prog(rng, top=True, via=None):
+    """Random program: own writes first (a module instance that is found again keeps the environment it was
+    loaded in, so a later own write would not reach it - as coded; kept out of the universe), then nested
+    invocations / own reads / (top level) nested drivers."""
+    kinds = ["gset", "sset", "tset", "bump", "reqbump", "gget", "sget", "tget", "view", "peek"]
+    vias = ["P", "A", "T"] if top or via == "A" else ["P", "T"]
+    prog = [{"via": "own", "k": rng.choice(["Wg", "Ws", "Wt"]), "sub": []} for _ in range(rng.choice([0, 0, 1, 2]))]
+    for _ in range(rng.randint(2, 6) if top else rng.randint(1, NEST_MAXARGS - len(prog) - 1)):
+        x = rng.random()
+        if x < 0.15:
+            prog.append({"via": "own", "k": "O", "sub": []})
+        elif x < 0.4 and top:
+            v = rng.choice(vias)
+            prog.append({"via": v, "k": "prog", "sub": nest_rand_prog(rng, False, v)})
+        else:
+            prog.append({"via": rng.choice(vias), "k": rng.choice(kinds), "sub": []})
+    prog.append({"via": "own", "k": "O", "sub": []})
+    return prog
 
 
 INV_WHY_KEPT = ("; the as-coded model with the deviation EnvKeptOnAbort (the environment pushed on lua_env_stack by an "
@@ -370,7 +600,7 @@ INV_WHY_KEPT = ("; the as-coded model with the deviation EnvKeptOnAbort (the env
                 "_lua_reset_env) predicts exactly the observed outputs")
 
 
-def invocation_histories(o, tier, gen, demo, dld):
+def invocation_histories(o, tier, gen, demo, dld, demos_nest):
     """gen / demo: TLCResults of Gen_ContextInvoke_<tier>.cfg and Demo_ContextInvoke_envkept.cfg."""
     thorough = tier == "thorough"
     o.add_tlc("Gen_ContextInvoke (invocation histories on one page; law MeetsDemand)", gen)
@@ -383,10 +613,21 @@ def invocation_histories(o, tier, gen, demo, dld):
     cases = gen.cases
     if len(cases) < 1000:
         raise common.TLCError("Gen_ContextInvoke produced only %d cases" % len(cases))
+    ncases = gen.tagged("NCASE")
+    if len(ncases) < 500:
+        raise common.TLCError("Gen_ContextInvoke produced only %d nest cases" % len(ncases))
+    for name, r in demos_nest.items():
+        o.extra["demo_%s_violates_CaseMeetsDemand" % name] = bool(r.invariant_violated)
+        if not r.invariant_violated:
+            raise common.TLCError("Demo_ContextInvoke_%s lost its counterexample" % name)
     rng = random.Random(common.seed() * 67 + 909)
     vkinds = sorted(set(INV_SIMPLE) - {"timeout"}) + ["n_nomod", "n_nilmod", "n_synmod", "n_badutf", "n_nofn", "n_err", "n_loaderr",
                                                       "n_bump", "t_nomod", "t_badutf", "t_bump", "page"]   # (the loadData kinds are in INV_SIMPLE)
     vh = [[rng.choice(vkinds) for _ in range(rng.randint(5, 12))] for _ in range(400 if thorough else 60)]
+    nrng = random.Random(common.seed() * 71 + 907)
+    tops = ["gset", "sset", "bump", "reqbump", "gget", "rget", "sget", "peek", "nomod", "err", "n_bump", "n_nomod"]
+    vn = [{"pre": [nrng.choice(tops) for _ in range(nrng.choice([0, 0, 1, 2]))], "prog": nest_rand_prog(nrng),
+           "post": [nrng.choice(tops) for _ in range(nrng.choice([0, 1, 1, 2]))]} for _ in range(300 if thorough else 40)]
     with Scratch("c09i-") as d:
         dbdir = d / "base"
         dbdir.mkdir()
@@ -411,14 +652,26 @@ def invocation_histories(o, tier, gen, demo, dld):
                 items.append((dbdir, "%d-%s" % (n, r), c["hist"], r, exp))
         # slow (time limit) histories first, small chunks: they spread over the workers
         items.sort(key=lambda it: "timeout" not in it[2])
+        # nest cases: all top-level invocations of the case in one text / one expand() per top-level invocation
+        nitems = []
+        for n, c in enumerate(ncases):
+            both = thorough or c["nest"]["pre"] or c["nest"]["post"] or len(c["nest"]["prog"]) == 1
+            for r in (("text", "calls") if both else (("text", "calls")[n % 2],)):
+                nitems.append((dbdir, "N%d-%s" % (n, r), nest_hist(c["nest"]), r, nest_expected(c["out"])))
         vitems = [(dbdir, "v%d" % n, h, "calls", None) for n, h in enumerate(vh)]
+        vitems += [(dbdir, "vn%d" % n, nest_hist(c), "calls", None) for n, c in enumerate(vn)]
         vres = pmap(inv_worker, vitems, chunk=max(1, len(vitems) // 16))
+        vnres = vres[len(vh):]
+        vres = vres[:len(vh)]
         # V: the recorded random histories are replayed through the model by TLC (in the background)
         from concurrent.futures import ThreadPoolExecutor
 
         bg = ThreadPoolExecutor(1)
-        f_rv = bg.submit(inv_trace_run, [[inv_abstract(k, t) for k, t in zip(h, got)] for h, (got, _) in zip(vh, vres)])
-        results = pmap(inv_worker, items, chunk=max(1, len(items) // 128))
+        f_rv = bg.submit(inv_trace_run, [[inv_abstract(k, t) for k, t in zip(h, got)] for h, (got, _) in zip(vh, vres)],
+                         [{"case": c, "got": nest_abstract_case(c, got)} for c, (got, _) in zip(vn, vnres)])
+        results = pmap(inv_worker, items + nitems, chunk=max(1, len(items + nitems) // 128))
+        nresults = results[len(items):]
+        results = results[:len(items)]
     def known_loaddata(origin, hist, rendering, i, got, exp_i):
         """Invocation #i shows what the as-is model with LoadDataTableMutableWithinPage predicts (and the ideal does not)."""
         case = {"origin": origin, "rendering": rendering, "history": hist[: i + 1], "invocation": inv_text(hist[i], rendering),
@@ -470,9 +723,123 @@ def invocation_histories(o, tier, gen, demo, dld):
             judge("I/G", hist, rendering, i, got, exp[i], again, bool(kept) and got == kept)
             break
 
+    # ---- nested programs ----
+    pending = {"cases": 0}
+    untrusted = set()
+    # NestedInvokeSharesLoadedModules: reproduced on the unchanged tree in round 7, repair proposed
+    # (proposed_fixes/C09-nested-invoke-own-module-instances.diff).  As long as known_findings.json has no entry for
+    # it (neither "finding" nor "fixed") the steps the as-is model explains by it are only counted (candidate
+    # finding); with an entry they go through Outcome.classify: KNOWN-FINDING while listed as open, VIOLATION once fixed.
+    nest_dev_listed = any(e.get("property") == PID and e.get("deviation") == NEST_DEV for e in common.load_known())
+
+    def leaf_text(x):
+        return nest_render([x])[1:-1]
+
+    def nest_judge(origin, case, rendering, got, exp, asis, shared, again):
+        """got: observed texts of the top-level invocations of the case; exp / asis / shared: model records {pre, prog, post}."""
+        hist = nest_hist(case)
+        exp_t = nest_expected(exp)
+        n = len(case["pre"])
+        asis_t = nest_expected(asis)
+        for i in range(len(hist)):
+            if got[i] == exp_t[i]:
+                continue
+            if i == n:
+                break
+            if got[i] == asis_t[i]:
+                continue
+            judge(origin, hist, rendering, i, got, exp_t[i], again, False)
+            return
+        else:
+            return
+        base = {"origin": origin, "rendering": rendering, "history": hist[: n + 1], "invocation": nest_text(case["prog"]),
+                "got": got[n][:300], "model": exp_t[n][:300]}
+        g = nest_abstract(case["prog"], got[n])
+        asis_leaf = {pth: x for pth, x, _ in nest_walk(asis["prog"], asis["prog"])}
+        solo = len(case["prog"]) == 1 and not case["pre"] and not case["post"]
+        for path, e, gs in nest_walk(exp["prog"], g):
+            if gs is not None and gs["vals"] == e["vals"]:
+                continue
+            num = ".".join(map(str, path))
+            what = ("own read of the running invocation" if e["via"] == "own"
+                    else "nested {{#invoke:%s|%s}} reached through %s" % (*nest_modfn(e["k"]), VIA_WORDS[e["via"]]))
+            shown = leaf_text(gs) if gs is not None else got[n][:80]
+            head = (f"step #{num} ({what}) of ONE top-level invocation {nest_text(case['prog'])} gives {shown!r} where the specification "
+                    f"demands {leaf_text(e)!r}")
+            a = asis_leaf.get(path)
+            if gs is not None and a is not None and gs["vals"] == a["vals"]:
+                why = (head + ": the page modules loaded by a nested #invoke stay in package.loaded for the rest of the top-level call "
+                       "(only top-level invocations reset it), so a later nested #invoke using the same module meets the state - and "
+                       "the environment - the earlier one left")
+                if nest_dev_listed:
+                    o.classify(dict(base, step=num), why, [NEST_DEV], cls="nested-program:" + NEST_DEV)
+                else:       # candidate finding, not (yet) listed: counted in the evidence, see notes/C09.md
+                    pending["cases"] += 1
+                    if "witness" not in pending or len(base["invocation"]) < len(pending["witness"]["invocation"]):
+                        pending["witness"] = dict(base, step=num, why=why)
+                continue
+            key = (e["via"], e["k"])
+            if key in untrusted or not nest_leaks(e, gs):
+                # no value of another invocation shows: the model says more than the statement (what a nested
+                # invocation sees of its caller, renderings ...)
+                o.note_drift({"nested_program_model_vs_code": dict(base, step=num)})
+                if solo:
+                    untrusted.add(key)
+                return
+            if e["via"] == "own":
+                who = "what a nested #invoke of this very call wrote is visible to the calling invocation afterwards"
+            else:
+                who = "what another (earlier, sibling) #invoke under the same top-level call wrote is visible to this nested #invoke"
+            where = ""
+            if again is not None:
+                where = (" (a fresh context running this page shows the same)" if again[n] == got[n]
+                         else " (a fresh context running this page does not show it: state of earlier pages)")
+            why = head + ": " + who + where
+            by_shared = got[n] == nest_expected(shared)[n] and shared["prog"] != asis["prog"]
+            if by_shared:
+                why += NEST_WHY_SHARED
+            o.violation(dict(base, step=num, all_outputs=[x[:120] for x in got]), why,
+                        cls="nested-program:" + ("NestedSharesCallerEnv" if by_shared else e["k"]))
+            return
+
+    order = sorted(range(len(nitems)), key=lambda j: (len(nitems[j][2]), len(nitems[j][2][0]["prog"]) if isinstance(nitems[j][2][0], dict) else 9))
+    for j in order:
+        (_, hid, hist, rendering, exp_t), (got, again) = nitems[j], nresults[j]
+        c = ncases[int(hid[1:].split("-")[0])]
+        o.evaluations += len(hist)
+        o.traces += 1
+        o.shape(("nest", rendering, json.dumps(c["nest"], sort_keys=True)))
+        if got != exp_t:
+            nest_judge("N/G", c["nest"], rendering, got, c["out"], c["asis"], c["shared"], again)
+
     rv = f_rv.result()
     bg.shutdown()
     o.add_tlc("Trace_ContextInvoke", rv)
+    nverdicts = {c["i"] - 1: c for c in rv.tagged("NCASE")}
+    if len(nverdicts) != len(vn):
+        raise common.TLCError("Trace_ContextInvoke judged %d of %d nest cases" % (len(nverdicts), len(vn)))
+    for n, (c, (got, _)) in enumerate(zip(vn, vnres)):
+        o.evaluations += len(c["pre"]) + 1 + len(c["post"])
+        o.traces += 1
+        o.shape(("nestV", json.dumps(c, sort_keys=True)))
+        vd = nverdicts[n]
+        if not vd["law"]:
+            raise common.TLCError("ContextInvoke: CaseMeetsDemand fails on %r without deviation" % (c,))
+        if not vd["ok"]:
+            nest_judge("N/V", c, "calls", got, vd["exp"], vd["asis"], vd["shared"], None)
+    o.extra["nested_programs"] = {
+        "G_cases": len(ncases), "G_runs": len(nitems), "V_programs": len(vn),
+        "cases_where_as_is_differs": sum(1 for c in ncases if c["asis"] != c["out"]),
+        "cases_where_NestedSharesCallerEnv_differs": sum(1 for c in ncases if c["shared"] != c["asis"])}
+    if not nest_dev_listed:
+        o.extra["candidate_finding"] = dict(pending, deviation=NEST_DEV, status="not listed in known_findings.json: the steps the as-is "
+                                            "model explains by this deviation are counted here and not reported")
+        if pending["cases"]:
+            print(f"CANDIDATE-FINDING: property={PID} {NEST_DEV} (not listed in known_findings.json, exit code unaffected): "
+                  f"{pending['cases']} step(s) of nested programs show exactly what the as-is model predicts, "
+                  f"e.g. {pending['witness']['invocation']} -> {pending['witness']['got']} (demanded {pending['witness']['model']})")
+    o.sample({"nest_case": ncases[len(ncases) // 2]["nest"], "text": nest_text(ncases[len(ncases) // 2]["nest"]["prog"]),
+              "demanded": nest_expected(ncases[len(ncases) // 2]["out"])})
     verdicts = {c["i"] - 1: c for c in rv.cases}
     if len(verdicts) != len(vh):
         raise common.TLCError("Trace_ContextInvoke judged %d of %d histories" % (len(verdicts), len(vh)))
@@ -501,7 +868,9 @@ def run(tier: str) -> int:
     o = Outcome(PID, tier)
     o.rule = "every history of page kinds up to MaxLen is one case (distinct by history); non-trivial = length >= 2"
     o.assumptions = ["each history runs in its own process so that module-level state starts fresh",
-                     "Lua through offline stand-ins; the catalogue has one concrete page per page kind of Context.tla"]
+                     "Lua through offline stand-ins; the catalogue has one concrete page per page kind of Context.tla",
+                     "nested programs: own writes of the driver come first (a module instance found again keeps the environment of "
+                     "its first load, as coded; not a matter of the statement); at most two levels of nesting"]
     thorough = tier == "thorough"
     # the TLC runs of the invocation-level engine go on in the background meanwhile
     from concurrent.futures import ThreadPoolExecutor
@@ -510,6 +879,7 @@ def run(tier: str) -> int:
     f_gen = bg.submit(tlc, "Gen_ContextInvoke", "Gen_ContextInvoke_%s.cfg" % ("thorough" if thorough else "quick"), workers=1, timeout=3000)
     f_demo = bg.submit(tlc, "Gen_ContextInvoke", "Demo_ContextInvoke_envkept.cfg", workers=1, check=False)
     f_dld = bg.submit(tlc, "Gen_ContextInvoke", "Demo_ContextInvoke_loaddata.cfg", workers=1, check=False)
+    f_dn = {n: bg.submit(tlc, "Gen_ContextInvoke", "Demo_ContextInvoke_%s.cfg" % n, workers=1, check=False) for n in ("nestshared", "nestmodules")}
     r = tlc("Gen_Context", "MC_Context_ideal.cfg", workers=8, timeout=1800)
     o.add_tlc("MC_Context_ideal (NonInterference, all histories <= 4)", r)
     dmo = tlc("Gen_Context", "Demo_Context_asbuilt.cfg", workers=1, check=False)
@@ -565,11 +935,13 @@ def run(tier: str) -> int:
     t_inv = time.time()
     g_res, d_res, l_res = f_gen.result(), f_demo.result(), f_dld.result()
     t_wait = time.time() - t_inv
-    invocation_histories(o, tier, g_res, d_res, l_res)
+    invocation_histories(o, tier, g_res, d_res, l_res, {n: f.result() for n, f in f_dn.items()})
     o.extra["invocation_histories"]["wall_s"] = {"waiting_for_TLC": round(t_wait, 1), "total": round(time.time() - t_inv, 1)}
     bg.shutdown()
     o.rule += ("; invocation level: every history of #invoke kinds on one page x rendering is one case "
-               "(distinct by history and rendering), all have length >= 2")
+               "(distinct by history and rendering), all have length >= 2; nested programs: every nest case (top-level "
+               "invocations, ONE invocation of the driver running a program of nested invocations / own reads and writes, "
+               "top-level invocations) x rendering is one case")
     o.exhaustive = True
     o.sample({"history": cases[len(cases) // 2]["hist"], "fresh_result_of_luaGlobal": json.dumps(fresh["luaGlobal"], default=str)[:200]})
     return o.finish()
@@ -589,10 +961,35 @@ def inv_record(hist, rendering="calls"):
     return got, [inv_abstract(k, t) for k, t in zip(hist, got)]
 
 
+def nest_record(case, rendering="calls"):
+    """Run one nest case on a fresh real context and abstract the observed outputs."""
+    with Scratch("c09nr-") as d:
+        (d / "base").mkdir()
+        inv_populate(d / "base" / "pages.db")
+        (got, _), = inv_worker([(d / "base", "r", nest_hist(case), rendering, None)])
+    return got, nest_abstract_case(case, got)
+
+
+def nest_trace(progs):
+    return sorted(inv_trace_run([], progs).tagged("NCASE"), key=lambda c: c["i"])
+
+
 def replay(path: str) -> int:
     v = json.loads(Path(path).read_text())
     print(json.dumps(v, indent=1)[:2500])
     case = v.get("case", {})
+    if str(case.get("origin", "")).startswith("N/"):
+        common.use_repo()
+        hist = case["history"]
+        n = [i for i, k in enumerate(hist) if isinstance(k, dict)][0]
+        nc = {"pre": hist[:n], "prog": hist[n]["prog"], "post": hist[n + 1:]}
+        got, rec = nest_record(nc, case.get("rendering", "calls"))
+        vd = nest_trace([{"case": nc, "got": rec}])[0]
+        print("re-run on a fresh context:", got)
+        print("demanded:", nest_expected(vd["exp"]))
+        print("Trace_ContextInvoke: recorded outcome meets the demand:", vd["ok"], "| the as-is model explains it:", vd["asisExplains"],
+              "| NestedSharesCallerEnv explains it:", vd["sharedExplains"])
+        return 0 if vd["ok"] or vd["asisExplains"] else 1
     if str(case.get("origin", "")).startswith("I/"):
         common.use_repo()
         hist = case["history"]
@@ -624,5 +1021,24 @@ def selftest() -> int:
     exp_ok = [inv_render(x) for x in events]
     print("rendering of the recorded events equals the observed text:", exp_ok == got)
     ok = ok and exp_ok == got and bool(r.invariant_violated) and bool(d.invariant_violated)
+    # nested programs: the model with a nested invocation in its caller's environment / with shared package.loaded
+    # violates the demand; a recorded program passes, a recording in which the sibling and the caller see the
+    # nested write is rejected (and explained by NestedSharesCallerEnv), one where only the sibling sees it is rejected
+    for name in ("nestshared", "nestmodules"):
+        dn = tlc("Gen_ContextInvoke", "Demo_ContextInvoke_%s.cfg" % name, workers=1, check=False)
+        print("Demo_ContextInvoke_%s violates CaseMeetsDemand in the model:" % name, bool(dn.invariant_violated))
+        ok = ok and bool(dn.invariant_violated)
+    nc = {"pre": ["gset"], "post": ["gget"],
+          "prog": [{"via": "P", "k": "gset", "sub": []}, {"via": "T", "k": "view", "sub": []}, {"via": "own", "k": "O", "sub": []}]}
+    ngot, rec = nest_record(nc)
+    both = json.loads(json.dumps(rec))
+    both["prog"][1]["vals"][0] = "set"
+    both["prog"][2]["vals"][0] = "set"
+    sibling = json.loads(json.dumps(rec))
+    sibling["prog"][1]["vals"][0] = "set"
+    nv = nest_trace([{"case": nc, "got": x} for x in (rec, both, sibling)])
+    print("recorded", ngot, "->", [(x["ok"], x["sharedExplains"]) for x in nv])
+    ok = ok and [(x["ok"], x["sharedExplains"]) for x in nv] == [(True, False), (False, True), (False, False)]
+    ok = ok and nest_expected(rec) == ngot and nest_leaks(rec["prog"][1], both["prog"][1]) and not nest_leaks(rec["prog"][1], rec["prog"][1])
     print("selftest", "ok" if ok else "FAILED")
     return 0 if ok else 1
